@@ -6,7 +6,7 @@
 (*   hSemSub{n,ok,cnt}   wait: ok = 1: n tokens taken (count >= n before, cnt after); ok = 0: count < n, the caller sleeps;  *)
 (*   hSleep{t,q}         the waiter is linked at the tail of the semaphore's queue with its demand (from its Inv);           *)
 (*   hIntr{t,-1}         try_resume wakes t: in-order mode only the head of the queue, any mode only if its demand is        *)
-(*                       covered by the tokens not yet promised to waiters woken earlier and still to re-subtract;           *)
+(*                       covered by the count;                                                                               *)
 (*   hIntr{t,e>0} / hExpire{t}  the waiter leaves the queue by interruption / timeout.                                       *)
 (* No lost wake-up, as a state predicate on the real execution: whenever a resume pass has ended -- signal() returned, or a  *)
 (* wait returned with a failure -- the waiter at the head of the queue (any waiter, out-of-order mode) must not be covered   *)
@@ -52,7 +52,8 @@ Intr == /\ Ev("hIntr")
            THEN /\ q' = Remove(q, R.t)
                 /\ IF R.r = -1
                    THEN /\ (IF ooo THEN TRUE ELSE Head(q) = R.t)                       \* in-order: only the head is resumed
-                        /\ dem[R.t] <= Unpromised                      \* and only if its demand is covered
+                        /\ dem[R.t] <= count                           \* and only if its demand is covered by the count
+                        \* (the pass budget is the count, not reduced by waiters woken earlier: over-waking is benign)
                         /\ woken' = woken \cup {R.t} /\ UNCHANGED dem
                    ELSE /\ dem' = [dem EXCEPT ![R.t] = 0] /\ UNCHANGED woken
            ELSE UNCHANGED <<q, dem, woken>>
